@@ -17,15 +17,19 @@ Example depth_first_was_shadowed :
 Proof. split; reflexivity. Qed.
 
 (* ---- FindInsertionPoints ---- *)
+(* an object for which nothing but __typename was asked (a member type of a union or interface the operation selects
+   nothing for): extractID answers nil *)
+Definition typename_only (o : list (string * json)) : bool := match extract_id o with Some None => true | _ => false end.
+
 (* the result conforms to the selection along the path: nothing is null, lists hold objects, the objects at the end
-   of the path carry an id *)
+   of the path carry an id — or, in a list, nothing but __typename *)
 Fixpoint Conf (rest : list string) (ss : list fsel) (chunk : list (string * json)) {struct rest} : Prop :=
   match rest with
   | [] => True
   | point :: rest' =>
       exists sel v, find_selection point ss = Some sel /\ assoc point chunk = Some v /\
         if flist sel then
-          exists l, v = JArr l /\ Forall (fun e => exists o, e = JObj o /\ (is_last rest' = true -> exists idv, assoc "id" o = Some idv) /\ Conf rest' (fsub sel) o) l
+          exists l, v = JArr l /\ Forall (fun e => exists o, e = JObj o /\ (is_last rest' = true -> (exists idv, assoc "id" o = Some idv) \/ typename_only o = true) /\ Conf rest' (fsub sel) o) l
         else
           exists o, v = JObj o /\ (is_last rest' = true -> exists idv, assoc "id" o = Some idv) /\ Conf rest' (fsub sel) o
   end.
@@ -46,7 +50,8 @@ Fixpoint paths (rest : list string) (ss : list fsel) (chunk : list (string * jso
                    match l with
                    | [] => []
                    | JObj o :: t =>
-                       paths rest' (fsub sel) o (branch ++ [if is_last rest' then render_list_point point i (id_of o) else render_list_step point i]) ++ each t (S i)
+                       if is_last rest' && typename_only o then each t (S i)
+                       else paths rest' (fsub sel) o (branch ++ [if is_last rest' then render_list_point point i (id_of o) else render_list_step point i]) ++ each t (S i)
                    | _ :: t => each t (S i)
                    end) l 0
             | _ => []
@@ -70,7 +75,7 @@ Proof.
   cbn [Conf] in HC. destruct HC as (sel & v & Hs & Hv & HC). cbn [points_go paths]. rewrite Hs, Hv.
   destruct (flist sel).
   - destruct HC as (l & -> & Hall).
-    assert (G : forall l i acc, Forall (fun e => exists o, e = JObj o /\ (is_last rest' = true -> exists idv, assoc "id" o = Some idv) /\ Conf rest' (fsub sel) o) l ->
+    assert (G : forall l i acc, Forall (fun e => exists o, e = JObj o /\ (is_last rest' = true -> (exists idv, assoc "id" o = Some idv) \/ typename_only o = true) /\ Conf rest' (fsub sel) o) l ->
       (fix each (l : list json) (i : nat) (acc : list (list string)) : pout :=
          match l with
          | [] => POk acc
@@ -78,7 +83,7 @@ Proof.
              if is_last rest' then
                match extract_id o with
                | None => PErr
-               | Some None => POk []
+               | Some None => each t (S i) acc
                | Some (Some id) =>
                    match points_go rest' (fsub sel) o (branch ++ [render_list_point point i id]) with
                    | POk r => each t (S i) (acc ++ r) | PErr => PErr end
@@ -92,14 +97,18 @@ Proof.
                    match l with
                    | [] => []
                    | JObj o :: t =>
-                       paths rest' (fsub sel) o (branch ++ [if is_last rest' then render_list_point point i (id_of o) else render_list_step point i]) ++ each t (S i)
+                       if is_last rest' && typename_only o then each t (S i)
+                       else paths rest' (fsub sel) o (branch ++ [if is_last rest' then render_list_point point i (id_of o) else render_list_step point i]) ++ each t (S i)
                    | _ :: t => each t (S i)
                    end) l i)).
     { clear Hall. induction l0 as [|e t IHl]; intros i acc Hall; [now rewrite app_nil_r|].
       inversion Hall as [|? ? (o & -> & Hid & Hc) Ht]; subst.
-      destruct (is_last rest') eqn:El.
-      - destruct (Hid eq_refl) as (idv & Hidv). rewrite (extract_id_some o idv Hidv).
-        rewrite (IH _ _ _ Hc). rewrite (IHl _ _ Ht). now rewrite app_assoc.
+      destruct (is_last rest') eqn:El; cbn [andb].
+      - destruct (Hid eq_refl) as [(idv & Hidv)|Hto].
+        + assert (Hn : typename_only o = false) by (unfold typename_only; now rewrite (extract_id_some o idv Hidv)).
+          rewrite Hn, (extract_id_some o idv Hidv).
+          rewrite (IH _ _ _ Hc). rewrite (IHl _ _ Ht). now rewrite app_assoc.
+        + rewrite Hto. unfold typename_only in Hto. destruct (extract_id o) as [[?|]|]; try discriminate. apply (IHl _ _ Ht).
       - rewrite (IH _ _ _ Hc). rewrite (IHl _ _ Ht). now rewrite app_assoc. }
     rewrite (G l 0 [] Hall). reflexivity.
   - destruct HC as (o & -> & Hid & Hc). destruct (is_last rest') eqn:El.
@@ -123,19 +132,25 @@ Proof.
     + destruct v as [| | | |l| |]; try contradiction.
       revert Hin. generalize 0 as i. induction l as [|e t IHl]; intros i Hin; [contradiction|].
       destruct e as [| | | | |o|]; try (now apply (IHl (S i))).
+      destruct (is_last rest' && typename_only o); [now apply (IHl (S i))|].
       apply in_app_or in Hin as [Hin|Hin]; [eapply Hext; eauto|now apply (IHl (S i))].
     + destruct v as [| | | | |o|]; try contradiction. eapply Hext; eauto.
 Qed.
 
-(* the listed finding C01-union-member-without-fields at this layer: one entry that carries nothing but __typename
-   makes the whole list come back empty, although the other entries are perfectly good places *)
+(* what was the listed finding C01-union-member-without-fields, at this layer: an entry that carries nothing but
+   __typename is passed over and the other entries are found (before fix ba7bf6b the whole list came back empty) *)
 Definition beings_sel : list fsel := [FSel "beings" true true [FSel "__typename" false false []; FSel "id" false true []]].
 Definition beings_result : list (string * json) :=
   [("beings", JArr [JObj [("__typename", JStr "Human")]; JObj [("__typename", JStr "Pet"); ("id", JStr "p1")]])].
-Example one_entry_without_id_hides_the_others :
-  find_points ["beings"] beings_sel beings_result [] = POk [] /\
-  paths ["beings"] beings_sel beings_result [] = [["beings:0#"]; ["beings:1#p1"]].
-Proof. split; vm_compute; reflexivity. Qed.
+Example an_entry_without_id_is_passed_over :
+  Conf ["beings"] beings_sel beings_result /\
+  find_points ["beings"] beings_sel beings_result [] = POk [["beings:1#p1"]] /\
+  paths ["beings"] beings_sel beings_result [] = [["beings:1#p1"]].
+Proof.
+  split; [|split; vm_compute; reflexivity].
+  cbn. eexists. eexists. split; [reflexivity|]. split; [reflexivity|]. cbn. eexists. split; [reflexivity|].
+  apply Forall_cons; [|apply Forall_cons; [|apply Forall_nil]]; eexists; (split; [reflexivity|]); (split; [|exact I]); intros _; [right; reflexivity|left; eexists; reflexivity].
+Qed.
 
 (* non-vacuity: a conforming result with a list below an object below a list *)
 Definition demo_sel : list fsel :=
@@ -149,10 +164,10 @@ Example demo_conforms : Conf ["friends"; "best"; "pets"] demo_sel demo_result /\
 Proof.
   split; [|vm_compute; reflexivity].
   cbn. eexists. eexists. split; [reflexivity|]. split; [reflexivity|]. cbn. eexists. split; [reflexivity|].
-  repeat constructor; eexists; (split; [reflexivity|]); (split; [discriminate|]);
+  repeat first [apply Forall_nil | apply Forall_cons]; eexists; (split; [reflexivity|]); (split; [discriminate|]);
     cbn; eexists; eexists; (split; [reflexivity|]); (split; [reflexivity|]); cbn; eexists; (split; [reflexivity|]); (split; [discriminate|]);
     cbn; eexists; eexists; (split; [reflexivity|]); (split; [reflexivity|]); cbn; eexists; (split; [reflexivity|]);
-    repeat constructor; eexists; (split; [reflexivity|]); (split; [intros _; eexists; reflexivity|exact I]).
+    repeat first [apply Forall_nil | apply Forall_cons]; eexists; (split; [reflexivity|]); (split; [intros _; left; eexists; reflexivity|exact I]).
 Qed.
 
 (* ---- the places that are found are the places the results are merged into ----
@@ -242,7 +257,8 @@ Proof.
                 In p ((fix each (l : list json) (i : nat) : list (list string) :=
                    match l with
                    | [] => []
-                   | JObj o :: t => paths rest' (fsub sel) o (branch ++ [if is_last rest' then render_list_point point i (id_of o) else render_list_step point i]) ++ each t (S i)
+                   | JObj o :: t => if is_last rest' && typename_only o then each t (S i)
+                                    else paths rest' (fsub sel) o (branch ++ [if is_last rest' then render_list_point point i (id_of o) else render_list_step point i]) ++ each t (S i)
                    | _ :: t => each t (S i)
                    end) l0 i) ->
                 exists q o', p = branch ++ q /\ resolve q chunk = Some o' /\ (point :: rest' <> [] -> last_id q = id_of o')).
@@ -250,6 +266,7 @@ Proof.
         assert (Ht : forall j e0, nth_error t j = Some e0 -> nth_error l (S i + j) = Some e0).
         { intros j e0 Hj. specialize (Hnth (S j) e0 Hj). now rewrite Nat.add_succ_r in Hnth. }
         destruct e as [| | | | |o|]; try (now apply (IHl (S i) Ht)).
+        destruct (is_last rest' && typename_only o); [now apply (IHl (S i) Ht)|].
         apply in_app_or in Hp as [Hp|Hp]; [|now apply (IHl (S i) Ht)].
         specialize (Hnth 0 (JObj o) eq_refl). rewrite Nat.add_0_r in Hnth.
         apply (Hstep _ o Hp).
